@@ -41,6 +41,25 @@ impl<F: Flavour> World<F> {
 
     /// Obtain a handle of node `u` the way `h` says; falls back to the
     /// original handle when that way is not available in the current state.
+    /// did the requested provenance actually yield a handle (rather than the fallback)?
+    pub fn provenance_available(&self, u: usize, h: Prov) -> bool {
+        match h {
+            Prov::Own | Prov::Clone => true,
+            _ => {
+                let got = self.handle_unchecked(u, h);
+                // the fallback is a clone of the own handle: same node, but we cannot tell
+                // identity of handles apart; ask whether the source of the handle exists
+                F::key(&got) == u
+                    && match h {
+                        Prov::Get | Prov::Index => self.graph.as_ref().map(|g| F::g_contains(g, u)).unwrap_or(false),
+                        Prov::EdgeSrc => F::out_degree(&self.nodes[u]) > 0,
+                        Prov::EdgeDst => F::in_degree(&self.nodes[u]) > 0,
+                        _ => true,
+                    }
+            }
+        }
+    }
+
     pub fn handle(&self, u: usize, h: Prov) -> F::Node {
         let got = self.handle_unchecked(u, h);
         // a traversal or iterator that hands back another node is C04-C10's business: the
